@@ -226,9 +226,9 @@ func (s *tScope) lookupStale(n string) bool {
 }
 
 type evalCtx struct {
-	env    *tplEnv
-	inserts map[string]*Node      // of the page being rendered through its layout
-	slots   map[string][]*Node    // of the component use being rendered
+	env     *tplEnv
+	inserts map[string]*Node   // of the page being rendered through its layout
+	slots   map[string][]*Node // of the component use being rendered
 	slotSc  *tScope
 	depth   int
 }
